@@ -9,7 +9,11 @@ package mod
 // the exception: the binding compares the new key with the old one to decide
 // between Update and Replace, so its value must be returned.
 
-import "go.riyazali.net/sqlite"
+import (
+	"go.riyazali.net/sqlite"
+
+	"github.com/jrhy/s3db"
+)
 
 func symSQLContextNoChange() *sqlite.VirtualTableContext { panic("intrinsic") }
 
@@ -19,7 +23,8 @@ func vSQLUpdate(vt *VirtualTable, key int64, col int, val int64) error {
 }
 
 func vSQLUpdateV(vt *VirtualTable, key int64, col int, val sqlite.Value) error {
-	out, err := vt.BestIndex(&sqlite.IndexInfoInput{Constraints: []*sqlite.IndexConstraint{{ColumnIndex: 0, Op: sqlite.INDEX_CONSTRAINT_EQ, Usable: true}}})
+	keyCol := s3db.VerifKeyCol
+	out, err := vt.BestIndex(&sqlite.IndexInfoInput{Constraints: []*sqlite.IndexConstraint{{ColumnIndex: keyCol, Op: sqlite.INDEX_CONSTRAINT_EQ, Usable: true}}})
 	if err != nil {
 		return err
 	}
@@ -32,7 +37,7 @@ func vSQLUpdateV(vt *VirtualTable, key int64, col int, val sqlite.Value) error {
 	}
 	for !cur.Eof() {
 		kc := symSQLContext()
-		if err := cur.Column(kc, 0); err != nil {
+		if err := cur.Column(kc, keyCol); err != nil {
 			return err
 		}
 		_, kp, _ := symSQLResult(kc)
@@ -71,7 +76,7 @@ func vSQLUpdateV(vt *VirtualTable, key int64, col int, val sqlite.Value) error {
 			// recognised by comparing the two as integers (a no-change value
 			// is a NULL and reads as 0), anything else is a change of key
 			oldKey := symSQLInt(kp.(int64))
-			newKey := args[0]
+			newKey := args[keyCol]
 			var nk int64
 			if !newKey.NoChange() && newKey.Type() == sqlite.SQLITE_INTEGER {
 				nk = newKey.Int64()
@@ -92,6 +97,21 @@ func vSQLUpdateV(vt *VirtualTable, key int64, col int, val sqlite.Value) error {
 // write times; after the merge each column holds the value of the statement
 // that assigned it.
 func VerifH_C02_sql_update() {
+	// the key column is declared first, in the middle or last
+	kc := symChoice("key-position", 3)
+	s3db.VerifKeyCol = kc
+	defer func() { s3db.VerifKeyCol = 0 }()
+	nk := []int{}
+	for i := 0; i < 3; i++ {
+		if i != kc {
+			nk = append(nk, i)
+		}
+	}
+	row := func(a, b, c int64) []sqlite.Value {
+		v := make([]sqlite.Value, 3)
+		v[kc], v[nk[0]], v[nk[1]] = symSQLInt(a), symSQLInt(b), symSQLInt(c)
+		return v
+	}
 	bkt := vNewBucket()
 	symS3Register(bkt.client(1))
 	c0 := vConnect()
@@ -99,7 +119,7 @@ func VerifH_C02_sql_update() {
 	symAssert(err == nil, "table-ok")
 	symAssert(c0.conn.Update(symSQLNull(), symSQLNoChange(), symSQLText("@ins")) == nil, "set-write-time-ok")
 	symAssert(t0.Begin() == nil, "begin-ok")
-	_, err = t0.Insert(symSQLInt(1), symSQLInt(10), symSQLInt(20))
+	_, err = t0.Insert(row(1, 10, 20)...)
 	symAssert(err == nil, "insert-ok")
 	symAssert(t0.Sync() == nil && t0.Commit() == nil, "commit-ok")
 	tIns, _ := vWriteTimeOf(c0.m.sc.ctx)
@@ -113,7 +133,7 @@ func VerifH_C02_sql_update() {
 		symAssume(times[w] > tIns)
 		symAssert(vt.Begin() == nil, "begin-ok")
 		// writer 0: UPDATE t SET b = 11; writer 1: UPDATE t SET c = 22
-		symAssert(vSQLUpdate(vt, 1, 1+w, int64(11+11*w)) == nil, "update-ok")
+		symAssert(vSQLUpdate(vt, 1, nk[w], int64(11+11*w)) == nil, "update-ok")
 		symAssert(vt.Sync() == nil && vt.Commit() == nil, "commit-ok")
 	}
 	symAssume(times[0] != times[1])
@@ -127,7 +147,7 @@ func VerifH_C02_sql_update() {
 	symAssert(cur.Filter(out.IndexNumber, out.IndexString) == nil, "filter-ok")
 	symAssert(!cur.Eof(), "row-visible")
 	cb, cc := symSQLContext(), symSQLContext()
-	symAssert(cur.Column(cb, 1) == nil && cur.Column(cc, 2) == nil, "column-ok")
+	symAssert(cur.Column(cb, nk[0]) == nil && cur.Column(cc, nk[1]) == nil, "column-ok")
 	_, pb, _ := symSQLResult(cb)
 	_, pc, _ := symSQLResult(cc)
 	symAssert(pb.(int64) == 11, "column-b-holds-the-value-of-the-statement-that-assigned-it")
